@@ -54,14 +54,18 @@ pub fn all_memmem<const NLEN: usize, const HCAP: usize>(mode: u8, part: u8) {
     let (hb, hlen) = sym_hay::<HCAP>(0, HCAP);
     let h = &hb.0[..hlen];
     // construction from a borrowed needle, one-shot searches
+    if part == 2 {
+        let fr = memmem::FinderRev::new(n);
+        let rr = fr.rfind(h);
+        crate::oracle::check_rightmost(h, n, rr);
+        assert!(memmem::rfind(h, n) == rr, "oracle: memmem::rfind differs from FinderRev::rfind");
+        kani::cover!(rr.is_some(), "occurrence");
+        return;
+    }
     let f = memmem::Finder::new(n);
     let r = f.find(h);
     crate::oracle::check_leftmost(h, n, r);
-    let fr = memmem::FinderRev::new(n);
-    let rr = fr.rfind(h);
-    crate::oracle::check_rightmost(h, n, rr);
     assert!(memmem::find(h, n) == r, "oracle: memmem::find differs from Finder::find");
-    assert!(memmem::rfind(h, n) == rr, "oracle: memmem::rfind differs from FinderRev::rfind");
     if part == 0 {
         kani::cover!(r.is_some(), "occurrence");
         return;
@@ -71,9 +75,10 @@ pub fn all_memmem<const NLEN: usize, const HCAP: usize>(mode: u8, part: u8) {
     let a = it.next();
     assert!(a == r, "oracle: first find_iter item differs from find");
     let _ = it.next();
+    let fr = memmem::FinderRev::new(n);
     let mut rit = fr.rfind_iter(h);
     let b = rit.next();
-    assert!(b == rr, "oracle: first rfind_iter item differs from rfind");
+    crate::oracle::check_rightmost(h, n, b);
     let g = f.as_ref();
     assert!(g.find(h) == r, "oracle: as_ref differs");
     let mut it2 = memmem::find_iter(h, n);
@@ -195,9 +200,9 @@ pub fn witness_shiftor() {
 }
 
 inst_noalloc!(na_memmem_n0, [props=C17 tier=quick cfg=x86std t=1500 role=noalloc-memmem uw=@RK;@TWNEW;@TWOFF;with_ranker:6;oracle:6;@PP;@MEMCHR;find_prefilter.0:2;clone:6;from:6], 3, all_memmem::<0, 8>(1, 0));
-inst_noalloc!(na_memmem_n1, [props=C17 tier=quick cfg=x86std t=1500 role=noalloc-memmem uw=@RK;@TWNEW;@TWOFF;with_ranker:6;oracle:6;@PP;@MEMCHR;find_prefilter.0:2;clone:6;from:6], 3, all_memmem::<1, 6>(1, 0));
-inst_noalloc!(na_memmem_n2_rk, [props=C17 tier=quick cfg=x86std t=1500 role=noalloc-memmem uw=@RK;@TWNEW;@TWOFF;with_ranker:6;oracle:6;@PP;@MEMCHR;find_prefilter.0:2;clone:6;from:6], 3, all_memmem::<2, 6>(1, 0));
-inst_noalloc!(na_memmem_n2_nosimd, [props=C17 tier=quick cfg=x86std t=1500 role=noalloc-memmem uw=@RK;@TWNEW;@TWOFF;with_ranker:6;oracle:6;@PP;@MEMCHR;find_prefilter.0:2;clone:6;from:6], 3, all_memmem::<2, 6>(0, 0));
+inst_noalloc!(na_memmem_n1, [props=C17 tier=thorough cfg=x86std t=1500 role=noalloc-memmem uw=@RK;@TWNEW;@TWOFF;with_ranker:6;oracle:6;@PP;@MEMCHR;find_prefilter.0:2;clone:6;from:6], 3, all_memmem::<1, 6>(1, 0));
+inst_noalloc!(na_memmem_n2_fwd, [props=C17 tier=quick cfg=x86std t=1500 role=noalloc-memmem uw=@RK;@TWNEW;@TWOFF;with_ranker:6;oracle:6;@PP;@MEMCHR;find_prefilter.0:2;clone:6;from:6], 3, all_memmem::<2, 6>(1, 0));
+inst_noalloc!(na_memmem_n2_nosimd, [props=C17 tier=thorough cfg=x86std t=1500 role=noalloc-memmem uw=@RK;@TWNEW;@TWOFF;with_ranker:6;oracle:6;@PP;@MEMCHR;find_prefilter.0:2;clone:6;from:6], 3, all_memmem::<2, 6>(0, 0));
 inst_noalloc!(na_memchr_g0_12, [props=C17 tier=quick cfg=x86std+x86log t=1800 role=noalloc-memchr uw=byte_by_byte:34;all::memchr::One::count_raw.0:67;all::memchr:10;find_raw.0:3;find_raw.1:4;count_raw.0:3;count_raw.1:4], 3, all_memchr::<12>(0));
 inst_noalloc!(na_memchr_g1_12, [props=C17 tier=thorough cfg=x86std t=1800 role=noalloc-memchr uw=byte_by_byte:34;all::memchr::One::count_raw.0:67;all::memchr:10;find_raw.0:3;find_raw.1:4;count_raw.0:3;count_raw.1:4], 3, all_memchr::<12>(1));
 inst_noalloc!(na_memchr_g2_12, [props=C17 tier=quick cfg=x86std t=1800 role=noalloc-memchr uw=byte_by_byte:34;all::memchr::One::count_raw.0:67;all::memchr:10;find_raw.0:3;find_raw.1:4;count_raw.0:3;count_raw.1:4], 3, all_memchr::<12>(2));
@@ -206,7 +211,9 @@ inst_noalloc!(na_memchr_g0_34, [props=C17 tier=quick cfg=x86std t=1800 role=noal
 inst_noalloc!(na_memchr_g1_34, [props=C17 tier=thorough cfg=x86std t=3600 role=noalloc-memchr uw=byte_by_byte:34;all::memchr::One::count_raw.0:67;all::memchr:10;find_raw.0:3;find_raw.1:4;count_raw.0:3;count_raw.1:4], 3, all_memchr::<34>(1));
 inst_noalloc!(na_long_f0_40, [props=C17 tier=quick cfg=x86std t=1800 role=noalloc-long-needle uw=@LONGNEW;_imp.:35;oracle:35], 4, long_needle_noalloc::<40>(0));
 inst_noalloc!(na_memmem_iters_n0, [props=C17 tier=quick cfg=x86std t=1500 role=noalloc-memmem-iterators uw=@RK;@TWNEW;@TWOFF;with_ranker:6;oracle:6;@PP;@MEMCHR;find_prefilter.0:2;clone:6;from:6], 3, all_memmem::<0, 5>(1, 1));
-inst_noalloc!(na_memmem_iters_n2, [props=C17 tier=quick cfg=x86std t=1500 role=noalloc-memmem-iterators uw=@RK;@TWNEW;@TWOFF;with_ranker:6;oracle:6;@PP;@MEMCHR;find_prefilter.0:2;clone:6;from:6], 3, all_memmem::<2, 5>(1, 1));
+inst_noalloc!(na_memmem_iters_n2, [props=C17 tier=quick cfg=x86std t=1500 role=noalloc-memmem-iterators uw=@RK;@TWNEW;@TWOFF;with_ranker:6;oracle:6;@PP;@MEMCHR;find_prefilter.0:2;clone:6;from:6], 3, all_memmem::<2, 4>(1, 1));
+inst_noalloc!(na_memmem_n2_rev, [props=C17 tier=quick cfg=x86std t=1500 role=noalloc-memmem uw=@RK;@TWNEW;@TWOFF;with_ranker:6;oracle:6;@PP;@MEMCHR;find_prefilter.0:2;clone:6;from:6], 3, all_memmem::<2, 6>(1, 2));
+inst_noalloc!(na_memmem_n0_rev, [props=C17 tier=quick cfg=x86std t=1500 role=noalloc-memmem uw=@RK;@TWNEW;@TWOFF;with_ranker:6;oracle:6;@PP;@MEMCHR;find_prefilter.0:2;clone:6;from:6], 3, all_memmem::<0, 6>(1, 2));
 inst_noalloc!(na_owned_use_n2, [props=C17 tier=quick cfg=x86std t=1500 role=noalloc-owned-finder uw=@RK;@TWNEW;@TWOFF;with_ranker:6;oracle:6;@PP;@MEMCHR;find_prefilter.0:2;clone:6;from:6], 3, owned_finder_use::<2, 5>());
 inst_noalloc!(na_oneshot_n2_h17, [props=C17 tier=quick cfg=x86std t=1500 role=noalloc-oneshot-mid uw=is_equal_raw:3;Hash:4;rabinkarp::Finder::new:4;rabinkarp::FinderRev::new:4;find_raw:18;rfind_raw:18;oracle:4], 3, oneshot_mid::<2, 17>());
 inst_noalloc!(na_oneshot_n3_h40, [props=C17 tier=thorough cfg=x86std t=3600 role=noalloc-oneshot-mid uw=is_equal_raw:3;Hash:5;rabinkarp::Finder::new:5;rabinkarp::FinderRev::new:5;find_raw:40;rfind_raw:40;oracle:5], 3, oneshot_mid::<3, 40>());
